@@ -482,6 +482,31 @@ def check_seed_kinds_across_processes(h: Harness):
 def check_native(h: Harness):
     rng = h.rng
     check_seed_kinds_across_processes(h)
+    # sources created without a seed argument are created with the same (default) seed; and the fall-back of a weighted choice whose
+    # weights are all zero is a draw of THE SOURCE like every other
+    for trial in range(h.n(6, 40)):
+        a, b = NativeRandomSource(), NativeRandomSource()
+        sa = [a.randint(-1000, 1000) for _ in range(8)]
+        sb = [b.randint(-1000, 1000) for _ in range(8)]
+        h.seen(f"native-default-seed:{trial}", nontrivial=trial == 0)
+        if sa != sb:
+            h.fail("NativeRandomSource", "same-seed-different-stream", f"two sources created without a seed argument start with {sa} and {sb}", [trial])
+            break
+    for trial in range(h.n(20, 200)):
+        seed = rng.randrange(10**6)
+        n = rng.randint(2, 6)
+        opts = list(range(n))
+        ws = [0.0] * n if trial % 2 == 0 else [1e-9] * n
+        outs = []
+        for _ in range(2):
+            src = NativeRandomSource(seed)
+            outs.append([src.choice_weighted(opts, list(ws)) for _ in range(6)] + [src.randint(0, 99)])
+        h.seen(f"native-zero-weights:{trial}")
+        if outs[0] != outs[1]:
+            h.fail("RandomSource.choice_weighted", "same-seed-different-stream",
+                   f"two NativeRandomSource({seed}) asked six times for a weighted choice among {n} options of weights {ws[0]} each (then for one randint) "
+                   f"answer {outs[0]} and {outs[1]}", [seed, n])
+            break
     for seed in [0, 1, 123, rng.randrange(10**6)]:
         a, b = NativeRandomSource(seed), NativeRandomSource(seed)
         sa, sb = [], []
